@@ -138,7 +138,12 @@ impl Prop for C11 {
         let mut o = Outcome::default();
         let r = run(ctx, c, &mut o);
         if let Err(e) = r {
-            o.fail("C11/harness-error", e);
+            if e.starts_with("harness-timeout") {
+                o.failure = None;
+                o.fail("C11/harness-timeout", e);
+            } else {
+                o.fail("C11/harness-error", e);
+            }
         }
         o
     }
@@ -736,7 +741,7 @@ async fn run_world(f: &mut Fixture, ns: NamespaceId, not_syncing: NamespaceId, m
                 let d2 = decision.clone();
                 let res = tokio::time::timeout(std::time::Duration::from_secs(20), st.run(bw, br, h.clone(), move |_n, _p| std::future::ready(d2.clone()))).await;
                 es(h.set_sync(w.ns, true).await)?;
-                let Ok(res) = res else { return Err("real acceptor did not finish within 20 s".into()) };
+                let Ok(res) = res else { return Err("harness-timeout: the real acceptor (one frame, then end of stream) did not finish within 20 s".into()) };
                 o.class(if allowed { "real-acceptor-failed-on-its-first-message(after-allow)" } else { "real-acceptor-declined" });
                 let res = match res {
                     Ok(_) => return Err("the acceptor was expected to fail (sync is off for the document)".into()),
